@@ -55,7 +55,7 @@ AXIOMS_OK = []
 # evaluate_serial and Job.evaluate is translated and proved equal to Model/Parallel.v par_tasks' submission rule and
 # Model/Job.v evaluate_serial / job_evaluate for all inputs
 from harness.core import translated_specs
-TRANSLATED = translated_specs("SignedCostsGen", "JobGen", "EvalPathGen")
+TRANSLATED = translated_specs("SignedCostsGen", "JobGen", "EvalPathGen", "StoreGen")
 TRUSTED = [
     "Coq 8.16.1 kernel, vm_compute for model evaluation (no native_compute)",
     "hand-written small-step model Model/Parallel.v (steps of Job.evaluate at objective-call / store-sync granularity) over the data "
